@@ -1718,4 +1718,170 @@ theorem ins_sim (ops : List IOp) {S : List Nat} {c c' : Cl} (h : Eqv S [] [] c c
           exact i2
         | _ => exact absurd trivial hs
 
+/-! ### the same in terms of plain histories: `k` re-deliveries inserted after `pre` -/
+
+/-- along the run, every delivery of event number `n` is of a handled event (decidable, on the original run) -/
+def laterHandled (n : Nat) (c : Cl) : List COp → Bool
+  | [] => true
+  | o :: os =>
+    (match o with
+     | .deliver e _ => e.n != n || handled c e
+     | _ => true) && laterHandled n (rstep c o).1 os
+
+/-- the results of the calls of a history other than the deliveries of event number `n` -/
+def resExcept (n : Nat) (c : Cl) : List COp → List Res
+  | [] => []
+  | o :: os => if touches [n] o then resExcept n (rstep c o).1 os else (rstep c o).2 :: resExcept n (rstep c o).1 os
+
+theorem okIns_orig (S : List Nat) (n : Nat) (hS : ∀ x ∈ S, x = n) (c : Cl) (ops : List COp) (h : laterHandled n c ops = true) :
+    okIns S c (ops.map .orig) = true := by
+  induction ops generalizing c with
+  | nil => rfl
+  | cons o os ih =>
+    simp only [laterHandled, Bool.and_eq_true] at h
+    simp only [List.map_cons, okIns, Bool.and_eq_true]
+    refine ⟨?_, ih _ h.2⟩
+    cases o with
+    | deliver e nx =>
+      have h1 := h.1
+      simp only [Bool.or_eq_true, bne_iff_ne, ne_eq] at h1
+      simp only [Bool.or_eq_true, Bool.not_eq_true', List.contains_eq_mem, decide_eq_false_iff_not]
+      rcases h1 with h1 | h1
+      · left; intro hm; exact h1 (hS _ hm)
+      · right; exact h1
+    | _ => rfl
+
+theorem replicate_append_cons (k a : Nat) (S : List Nat) : List.replicate k a ++ a :: S = a :: (List.replicate k a ++ S) := by
+  induction k with
+  | zero => rfl
+  | succ k ih => simp only [List.replicate_succ, List.cons_append, ih]
+
+theorem okIns_replicate (S : List Nat) (c : Cl) (e : Ev) (nx k : Nat) (rest : List IOp) (hh : handled c e = true) (hk : known c e = true)
+    (hr : okIns (List.replicate k e.n ++ S) c rest = true) : okIns S c (List.replicate k (.ins e nx) ++ rest) = true := by
+  induction k generalizing S with
+  | zero => simpa using hr
+  | succ k ih =>
+    simp only [List.replicate_succ, List.cons_append, okIns, hh, hk, Bool.and_self, Bool.true_and]
+    apply ih
+    rw [replicate_append_cons]; exact hr
+
+theorem runA_orig (S : List Nat) (n : Nat) (hS : ∀ x, x ∈ S ↔ x = n) (c : Cl) (ops : List COp) :
+    runA S c (ops.map .orig) = ((hist c ops).1, resExcept n c ops) := by
+  induction ops generalizing c with
+  | nil => rfl
+  | cons o os ih =>
+    have ht : touches S o = touches [n] o := by
+      cases o with
+      | deliver e nx =>
+        simp only [touches]
+        by_cases hx : e.n = n
+        · have : e.n ∈ S := (hS _).2 hx
+          simp [hx, (hS n).2 rfl]
+        · have : ¬ e.n ∈ S := fun hm => hx ((hS _).1 hm)
+          simp [hx, this]
+      | _ => rfl
+    simp only [List.map_cons, runA, ih, hist, resExcept, ht]
+
+theorem runB_orig (S : List Nat) (c : Cl) (ops : List IOp) (h : ∀ o ∈ ops, ∃ o', o = .orig o') : runB S c ops = runA S c ops := by
+  induction ops generalizing c with
+  | nil => rfl
+  | cons o os ih =>
+    obtain ⟨o', rfl⟩ := h o (List.mem_cons_self ..)
+    simp only [runA, runB, ih _ (fun x hx => h x (List.mem_cons_of_mem _ hx))]
+
+theorem runA_replicate (S : List Nat) (c : Cl) (e : Ev) (nx k : Nat) (rest : List IOp) :
+    runA S c (List.replicate k (.ins e nx) ++ rest) = runA (List.replicate k e.n ++ S) c rest := by
+  induction k generalizing S with
+  | zero => rfl
+  | succ k ih =>
+    simp only [List.replicate_succ, List.cons_append, runA]
+    rw [ih]
+    rw [replicate_append_cons]
+
+theorem runB_replicate (S : List Nat) (c : Cl) (e : Ev) (nx k : Nat) (rest : List IOp) :
+    runB S c (List.replicate k (.ins e nx) ++ rest) =
+      runB (List.replicate k e.n ++ S) (hist c (List.replicate k (.deliver e nx))).1 rest := by
+  induction k generalizing S c with
+  | zero => rfl
+  | succ k ih =>
+    simp only [List.replicate_succ, List.cons_append, runB, hist]
+    rw [ih]
+    rw [replicate_append_cons]; rfl
+
+/-- **insertion at one place, any number of times** (engine form of C07's history theorem): after any prefix, `k ≥ 1` deliveries
+    of an event that is handled and known there; every later delivery of that event number in the original suffix is of a
+    handled event.  Then the suffix ends with the same `proj` in both runs and every call of it other than the deliveries of that
+    event number answers the same. -/
+theorem insert_handled (c : Cl) (hi : IInv c) (suf : List COp) (e : Ev) (nx k : Nat)
+    (hh : handled c e = true) (hk : known c e = true) (hl : laterHandled e.n c suf = true) :
+    proj (hist (hist c (List.replicate (k + 1) (.deliver e nx))).1 suf).1 = proj (hist c suf).1 ∧
+    resExcept e.n (hist c (List.replicate (k + 1) (.deliver e nx))).1 suf = resExcept e.n c suf := by
+  have hS : ∀ x, x ∈ List.replicate (k + 1) e.n ++ [] ↔ x = e.n := by
+    intro x; simp [List.mem_replicate]
+  have hok : okIns [] c (List.replicate (k + 1) (.ins e nx) ++ suf.map .orig) = true :=
+    okIns_replicate [] c e nx (k + 1) _ hh hk (okIns_orig _ e.n (fun x hx => (hS x).1 hx) c suf hl)
+  obtain ⟨h1, h2⟩ := ins_sim _ (Eqv.refl [] [] [] c) hi hi hok
+  rw [runA_replicate, runB_replicate, runA_orig _ e.n hS, runB_orig _ _ _ (by intro o ho; simp only [List.mem_map] at ho; obtain ⟨o', _, rfl⟩ := ho; exact ⟨o', rfl⟩),
+    runA_orig _ e.n hS] at h1 h2
+  exact ⟨h1.proj, h2⟩
+
+/-- no call of the history delivers event number `n` -/
+def noLater (n : Nat) (ops : List COp) : Bool := ops.all (fun o => !touches [n] o)
+
+theorem resExcept_noLater (n : Nat) (c : Cl) (ops : List COp) (h : noLater n ops = true) : resExcept n c ops = (hist c ops).2 := by
+  induction ops generalizing c with
+  | nil => rfl
+  | cons o os ih =>
+    simp only [noLater, List.all_cons, Bool.and_eq_true, Bool.not_eq_true'] at h
+    simp only [resExcept, h.1, Bool.false_eq_true, if_false, hist]
+    rw [ih _ (by simpa [noLater] using h.2)]
+
+theorem laterHandled_noLater (n : Nat) (c : Cl) (ops : List COp) (h : noLater n ops = true) : laterHandled n c ops = true := by
+  induction ops generalizing c with
+  | nil => rfl
+  | cons o os ih =>
+    simp only [noLater, List.all_cons, Bool.and_eq_true, Bool.not_eq_true'] at h
+    simp only [laterHandled, Bool.and_eq_true]
+    refine ⟨?_, ih _ (by simpa [noLater] using h.2)⟩
+    cases o with
+    | deliver e nx =>
+      have h1 := h.1
+      simp only [touches, List.contains_cons, List.contains_nil, Bool.or_false, beq_eq_false_iff_ne, ne_eq] at h1
+      simp [h1]
+    | _ => rfl
+
+/-! ### refused deliveries inserted at one place (C06) -/
+
+/-- the deliveries, one after the other, are all refused and none of them is judged better than an applied commit -/
+def refusedSeq (c : Cl) : List (Ev × Nat) → Bool
+  | [] => true
+  | p :: r => !isBetter c (epochOf p.1.path) p.1 && refusal (deliver c p.1 p.2).2 && refusedSeq (deliver c p.1 p.2).1 r
+
+def asOps (ins : List (Ev × Nat)) : List COp := ins.map (fun p => .deliver p.1 p.2)
+
+theorem refused_seq_eqv {W X : List Nat} {c c' : Cl} (h : Eqv [] W X c c') (hi' : IInv c') (ins : List (Ev × Nat))
+    (hr : refusedSeq c' ins = true) :
+    Eqv [] (W ++ ins.map (·.1.n)) (X ++ ins.map (·.1.cipher)) c (hist c' (asOps ins)).1 := by
+  induction ins generalizing W X c' with
+  | nil => simpa [asOps, hist] using h
+  | cons p r ih =>
+    simp only [refusedSeq, Bool.and_eq_true, Bool.not_eq_true'] at hr
+    have h1 := refused_eqv 3 p.2 c' p.1 hi'.2.1 hr.1.1 hr.1.2
+    have h2 : Eqv [] (W ++ [p.1.n]) (X ++ [p.1.cipher]) c (deliver c' p.1 p.2).1 :=
+      (h.mono (fun _ hx => hx) (fun _ hx => List.mem_append_left _ hx) (fun _ hx => List.mem_append_left _ hx)).trans
+        (h1.mono (fun _ hx => hx) (fun _ hx => List.mem_append_right _ hx) (fun _ hx => List.mem_append_right _ hx))
+    have := ih h2 (iinv_rstep c' (.deliver p.1 p.2) hi') hr.2
+    have hstep : (rstep c' (.deliver p.1 p.2)).1 = (deliver c' p.1 p.2).1 := rfl
+    simpa [asOps, hist, List.append_assoc, hstep] using this
+
+/-- **insertion of refused deliveries** (engine form of C06's history theorem) -/
+theorem insert_refused (c : Cl) (hi : IInv c) (ins : List (Ev × Nat)) (suf : List COp) (hr : refusedSeq c ins = true)
+    (ha : suf.all (avoids (ins.map (·.1.n)) (ins.map (·.1.cipher))) = true) :
+    proj (hist c (asOps ins)).1 = proj c ∧
+    proj (hist (hist c (asOps ins)).1 suf).1 = proj (hist c suf).1 ∧ (hist (hist c (asOps ins)).1 suf).2 = (hist c suf).2 := by
+  have h0 := refused_seq_eqv (Eqv.refl [] [] [] c) hi ins hr
+  simp only [List.nil_append] at h0
+  obtain ⟨h1, h2⟩ := hist_sim suf h0 ha
+  exact ⟨h0.proj, h1.proj, h2⟩
+
 end MdkVerif.Client.Ins
